@@ -73,6 +73,11 @@ def run(ctx, progs):
     for cfg, prog in progs.items():
         if cfg == "default_dbg":
             dbgassert1(ctx, prog, cfg)
+            # the arithmetic inside debug assertions is code too in this build
+            from .. import subrule as _sr
+
+            _sr.report(ctx, prog, cfg)
+            _sr.report(ctx, prog, cfg, "RIDX1", floor=25)
             continue
         pan(ctx, prog, cfg)
         eng = shared.run_mod1(prog)
